@@ -737,22 +737,26 @@ SHARED_TYPES = {"any", "nd", "str", "int", "float", "bool"}
 SHARED_VALUE_TOKENS = ["nd:ff", "s", "f", "i", "b", "nd:"]
 
 
+SHARED_DATA_TOKENS = {"s", "i", "f", "b", "nd:ff"}
+
+
 def shared_expressible(lines: list[str]) -> bool:
+    """Histories whose every edit means the same for a SimpleGrammar and a JSONGrammar."""
     kinds = {ln.split()[2] for ln in lines if ln.startswith("new ")}
     if len(kinds) != 1:
         return False
     for ln in lines:
         t = ln.split()
         op = t[0]
-        if op in ("schema", "data", "qschema", "qjson", "qsimple"):
+        if op in ("schema", "qschema", "qjson", "qsimple"):
             return False
-        if op in ("names", "types") and t[3] == "1":
+        if op in ("names", "types", "data") and t[3] == "1":
             return False
         if op == "upd" and t[4] == "1":
             return False
         if op == "types" and any(v not in SHARED_TYPES for _, v in parse_kvs(t[2])):
             return False
-        if op == "val":
+        if op == "data" and any(v not in SHARED_DATA_TOKENS for _, v in parse_kvs(t[2])):
             return False
     return True
 
@@ -790,7 +794,7 @@ def agreement_run(lines: list[str], seed_key: str) -> list[tuple[str, str]]:
     for idx, (la, lb) in enumerate(zip(lines, mlines)):
         sa, sb = wa.apply(la), wb.apply(lb)
         where = f"step {idx} `{la}`"
-        if sa != sb:
+        if sa != sb and la.split()[0] != "val":
             bad.append(("simple-json-disagree", f"{where}: answers {sa} (as written) vs {sb} (other grammar class)"))
             break
         for i in range(NSLOTS):
@@ -841,11 +845,13 @@ class Gen:
 
     def __init__(self, rng: common.Rng, style: str) -> None:
         self.rng = rng
-        self.style = style  # "J", "S", "mixed"
+        self.style = style  # "J", "S", "mixed", "shared" (one class, only edits both classes can express)
+        self.shared_kind = rng.pick(["J", "S"])
         self.kind: dict[int, str] = {}
         self.keys: dict[int, list[str]] = {}
         self.lines: list[str] = []
-        self.probe = False
+        self.probe_lines: list[int] = []
+        self.focus = rng.pick(["", "", "", "ns", "required", "defaults"])
 
     def some_names(self, s: int, lo: int = 1, hi: int = 3, fresh: float = 0.5) -> list[str]:
         rng = self.rng
@@ -879,7 +885,10 @@ class Gen:
                 ks.append(n)
 
     def new(self, s: int) -> None:
-        k = self.style if self.style in ("J", "S") else self.rng.pick(["J", "S"])
+        if self.style == "shared":
+            k = self.shared_kind
+        else:
+            k = self.style if self.style in ("J", "S") else self.rng.pick(["J", "S"])
         self.kind[s] = k
         self.keys[s] = []
         self.add(f"new {s} {k}")
@@ -888,6 +897,8 @@ class Gen:
         rng = self.rng
         k = self.kind[s]
         r = rng.random()
+        if self.style == "shared" and r >= 0.5:
+            r = 0.95
         if r < 0.5:
             ks = self.keys.get(s, [])
             toks = VALUE_TOKENS
@@ -901,7 +912,7 @@ class Gen:
             self.add(f"qjson {s}")
         elif r < 0.88:
             if k == "J":
-                self.probe = self.probe or True  # conversion of arbitrary JSON types is not specified
+                self.probe_lines.append(len(self.lines) + 1)  # conversion of arbitrary JSON types is not specified
             self.add(f"qsimple {s}")
         else:
             self.add(f"qmisc {s} " + (",".join(self.some_names(s, 0, 2)) or "-"))
@@ -913,23 +924,33 @@ class Gen:
         k = self.kind[s]
         merge_ok = k == "J"
         merge = "1" if (merge_ok and rng.chance(0.35)) or (not merge_ok and rng.chance(0.04)) else "0"
-        op = rng.pick(
-            ["names"] * 4 + ["types"] * 4 + ["data"] * 3 + ["schema"] * 3 + ["upd"] * 4 + ["restrict"] * 2
-            + ["rename"] * 3 + ["del"] * 3 + ["addns"] * 2 + ["clear"] + ["copy"] * 3 + ["pickle"] * 3
-            + ["setdef"] * 3 + ["deldef"] + ["defaults"] + ["reqadd"] * 2 + ["reqdisc"] * 3 + ["new"]
-        )
+        shared = self.style == "shared"
+        if shared:
+            merge = "0"
+        weights = {"names": 4, "types": 4, "data": 3, "schema": 3, "upd": 4, "restrict": 2, "rename": 3, "del": 3,
+                   "addns": 2, "clear": 1, "copy": 3, "pickle": 3, "setdef": 3, "deldef": 1, "defaults": 1,
+                   "reqadd": 2, "reqdisc": 3, "new": 1}
+        if shared:
+            weights["schema"] = 0
+        if self.focus == "ns":
+            weights.update({"addns": 8, "upd": 8, "copy": 5, "pickle": 3})
+        elif self.focus == "required":
+            weights.update({"reqadd": 6, "reqdisc": 8, "rename": 5, "del": 5, "restrict": 4, "copy": 5, "pickle": 5, "schema": 5 if not shared else 0})
+        elif self.focus == "defaults":
+            weights.update({"setdef": 8, "defaults": 4, "deldef": 3, "rename": 6, "upd": 6, "copy": 4})
+        op = rng.pick([o for o, n in weights.items() for _ in range(n)])
         if op == "names":
             ns = self.some_names(s)
             self.add(f"names {s} {','.join(ns)} {merge}")
             self.note_keys(s, ns)
         elif op == "types":
             ns = self.some_names(s)
-            toks = TYPE_TOKENS + (["dict", "none"] if k == "S" or rng.chance(0.05) else [])
+            toks = sorted(SHARED_TYPES) if shared else TYPE_TOKENS + (["dict", "none"] if k == "S" or rng.chance(0.05) else [])
             self.add(f"types {s} " + ",".join(f"{n}={rng.pick(toks)}" for n in ns) + f" {merge}")
             self.note_keys(s, ns)
         elif op == "data":
             ns = self.some_names(s)
-            toks = DATA_TOKENS + (MIXED_DATA_TOKENS if rng.chance(0.2) else [])
+            toks = sorted(SHARED_DATA_TOKENS) if shared else DATA_TOKENS + (MIXED_DATA_TOKENS if rng.chance(0.2) else [])
             self.add(f"data {s} " + ",".join(f"{n}={rng.pick(toks)}" for n in ns) + f" {merge}")
             self.note_keys(s, ns)
         elif op == "schema":
@@ -946,9 +967,8 @@ class Gen:
             excl = [n for n in self.keys.get(src, []) if rng.chance(0.2)]
             if rng.chance(0.1):
                 excl.append(rng.pick(NAMES))
-            if self.kind[src] != k:
-                if k == "S":
-                    self.probe = True  # JSON -> Simple conversion of arbitrary types: not specified
+            if self.kind[src] != k and k == "S":
+                self.probe_lines.append(len(self.lines) + 1)  # JSON -> Simple conversion of arbitrary types: not specified
             self.add(f"upd {s} {src} {','.join(dict.fromkeys(excl)) or '-'} {merge}")
             self.note_keys(s, [n for n in self.keys.get(src, []) if n not in excl])
         elif op == "restrict":
@@ -1010,7 +1030,7 @@ class Gen:
 
 
 def gen_case(rng: common.Rng) -> dict[str, Any]:
-    style = rng.pick(["J"] * 5 + ["S"] * 3 + ["mixed"] * 2)
+    style = rng.pick(["J"] * 5 + ["S"] * 2 + ["mixed"] * 2 + ["shared"] * 3)
     g = Gen(rng, style)
     g.new(0)
     n = rng.pick([2, 3, 4, 5, 6, 8, 10, 12, 15, 20])
@@ -1021,7 +1041,7 @@ def gen_case(rng: common.Rng) -> dict[str, Any]:
             g.query(rng.pick(g.live()))
     if rng.chance(0.7):
         g.query(rng.pick(g.live()))
-    return {"ops": ["reset", *g.lines], "probe": g.probe}
+    return {"ops": ["reset", *g.lines], "probe_lines": g.probe_lines}
 
 
 # --------------------------------------------------------------------------- checking
@@ -1105,15 +1125,11 @@ def check_cases(res: Result, cases: list[dict[str, Any]], rng: common.Rng, deadl
             res.count("skipped-deadline")
             continue
         res.evaluations += 1
-        in_scope = not case["probe"]
-        bad: list[tuple[str, str]] = []
-        if in_scope:
-            impl, bad = oracle_case(case)
-        else:
-            impl = run_impl(lines)
+        probe_lines = set(case.get("probe_lines", []))
+        impl, bad = oracle_case(case)
         n_edits = sum(1 for ln in lines[1:] if ln.split()[0] not in QUERIES)
         res.count(f"edits={min(n_edits, 20)//5*5}+")
-        res.count("stream=" + ("in-scope" if in_scope else "probe"))
+        res.count("cases-with-probe-ops" if probe_lines else "cases-all-in-scope")
         for ln, a in zip(lines[1:], impl[1:]):
             op = ln.split()[0]
             res.count("op=" + op)
@@ -1127,19 +1143,20 @@ def check_cases(res: Result, cases: list[dict[str, Any]], rng: common.Rng, deadl
         if n_edits >= 3:
             res.nontrivial(case_key(case))
         res.sample({"ops": lines[1:6], "impl_last": impl[-1], "model_last": m[-1]})
-        if in_scope:
-            if bad:
-                report_oracle(res, case, bad)
-            if shared_expressible(lines):
-                res.count("agreement-run")
+        if bad:
+            report_oracle(res, case, bad)
+        if shared_expressible(lines):
+            res.count("agreement-run")
         diff = next((i for i in range(len(lines)) if impl[i] != m[i]), None)
         if diff is None:
             res.traces_validated += 1
             continue
         res.disagreements += 1
-        if not in_scope:
+        if diff in probe_lines:
+            # operation outside the property's quantifier: informative only; the rest of the trace is not compared
             res.count("probe-disagreement")
-            res.notes.append(f"out-of-scope probe disagreement at `{lines[diff]}`: impl={impl[diff]} model={m[diff]}")
+            if len(res.notes) < 12:
+                res.notes.append(f"out-of-scope probe disagreement at `{lines[diff]}`: impl={impl[diff].split('|')[0]} model={m[diff].split('|')[0]}")
             continue
         if bad:
             continue
